@@ -265,6 +265,7 @@ func init() {
 			"(E6.inbound-loop-checks) in handleUpdate the own-AS and ORIGINATOR_ID checks precede the append to the list handed to the RIB, and Adj-RIB-In is updated afterwards. Also: (E6.loop-check-full-path) the sequence-only AS list is used only by AS-path policy code, never by loop prevention; (E6.path-cache-reset) memoised Path fields are reset by the attribute mutators.",
 		Not: "Which attributes each peer type must receive (AS prepend count, next-hop value, MED/LOCAL_PREF presence) and the split-horizon / reflection rule table depend on runtime peer attributes and are not decided.",
 		Run: func(c *Ctx) {
+			c.ruleRatchets("C09")
 			c.ruleSharedAttrWrites("E2a.shared-write", []string{"internal/pkg/table", "pkg/server", "pkg/apiutil"}, 60)
 			c.ruleOwnedPathMutation("E2b.owned-path", 30)
 			c.ruleInboundLoopChecks()
